@@ -333,6 +333,54 @@ for i in range(N):
     hv = 2 if (i % 8 == 7) else (1 if i % 2 == 0 else 0)
     files, meta = gen.generate(chk.seed, i, hv, avoid)
     cases.append(("g%03d" % i, files, meta))
+
+
+def overlay_leg():
+    """Additive overlay of a std package with observable original init state (none of the shipped additive overlays has
+    any): scratch copy of the working tree + synthetic overlay of encoding/hex registered in runtime/build.go, llgo built
+    from that copy, program importing encoding/hex. The original package's variables must be initialised exactly once,
+    after the overlay's guard is set and before any importer's initialiser reads them."""
+    import shutil, subprocess
+    copy = os.path.join(w.dir, "ovltree")
+    subprocess.run(["rsync", "-a", "--exclude", ".git", core.REPO + "/", copy + "/"], check=True)
+    d = os.path.join(copy, "runtime", "internal", "lib", "encoding", "hex")
+    os.makedirs(d, exist_ok=True)
+    shutil.copy(os.path.join(core.V, "progs", "c12_overlay", "pkg", "hex_llgo.go"), d)
+    bp = os.path.join(copy, "runtime", "build.go")
+    src = open(bp).read()
+    key = '"internal/runtime/sys":'
+    if key not in src or "altPkgAdditive" not in src:
+        return ("inconclusive", "runtime/build.go no longer has the additive overlay table the leg hooks into")
+    i = src.index(key)
+    j = src.index("\n", i)
+    src = src[:j + 1] + '\t"encoding/hex": altPkgAdditive,\n' + src[j + 1:]
+    open(bp, "w").write(src)
+    # llgo itself is built from the working tree with the one registration line overlaid (go build -overlay): only the
+    # packages depending on runtime/build.go are recompiled. The copy serves as LLGO_ROOT (it carries the overlay package).
+    ollgo = core.build_llgo(w, extra_overlay={os.path.join("runtime", "build.go"): bp})
+    pd = os.path.join(w.dir, "ovlprog")
+    shutil.copytree(os.path.join(core.V, "progs", "c12_overlay", "prog"), pd)
+    exe = os.path.join(pd, "p_llgo.bin")
+    rc, so, se = core.llgo_build(w, ollgo, pd, exe, extra_env={"LLGO_ROOT": copy})
+    if rc != 0:
+        return ("build", (so + se)[-1500:])
+    r = core.run_prog([exe], timeout=120)
+    want = ["@ overlay-hex var overlayReady",
+            "@ main var initialiser ErrLength-initialised true",
+            "@ main.main ErrLength-initialised true",
+            "@ main.main DecodeString-fails true is-ErrLength true",
+            "@ main.main EncodedLen(4) 8"]
+    got = [l for l in r.err.split("\n") if l.startswith("@")]
+    shutil.rmtree(copy, ignore_errors=True)
+    if r.kind != "exit" or r.rc != 0 or got != want:
+        return ("mismatch", "expected trace:\n%s\ngot (%s rc=%s):\n%s" % ("\n".join(want), r.kind, r.rc, r.err[-1200:]))
+    return ("ok", "")
+
+
+import threading
+ovl_result = {}
+ovl_thread = threading.Thread(target=lambda: ovl_result.update(r=overlay_leg()))
+ovl_thread.start()
 workers = int(os.environ.get("VERIF_C12_WORKERS", "8"))
 results = [first] + core.pmap(lambda c: run_case(w, llgo, c[0], c[1], c[2], go126), cases[1:], workers=min(workers, 8))
 sampled = 0
@@ -346,6 +394,19 @@ for res in results:
         m = res["meta"]
         chk.sample({"graph": res["name"], "shape": m["shape"], "packages": [[p["id"], p["dir"], [j for j, _ in p["imports"]]] for p in m["pkgs"]],
                     "reference_trace_head": ["@ %s %s %s" % e for e in rev[:12]], "events": len(rev)})
+ovl_thread.join()
+kind, detail = ovl_result.get("r", ("inconclusive", "overlay leg did not finish"))
+chk.cov["additive_overlay_leg"] = kind
+if kind == "ok":
+    chk.cov["evaluations"] += 1
+    chk.sig("additive-overlay:encoding/hex")
+elif kind == "inconclusive":
+    chk.inconclusive += 1
+else:
+    chk.violation("additive-overlay", {"hex_llgo.go": open(os.path.join(core.V, "progs", "c12_overlay", "pkg", "hex_llgo.go")).read(),
+                                       "main.go": open(os.path.join(core.V, "progs", "c12_overlay", "prog", "main.go")).read(), "detail.txt": detail},
+                  "a std package overlaid additively (synthetic overlay of encoding/hex registered as altPkgAdditive) is not initialised as Go requires: "
+                  "the original package's variables must be initialised once, before its importers (%s)\n%s" % (kind, detail[:1200]))
 for k, v in stats.items():
     chk.cov[k] = v
 chk.cov["avoided_constructs"] = avoid
